@@ -108,12 +108,15 @@ func (r *FailReader) Read(p []byte) (int, error) {
 }
 
 // FailWriter counts Write calls and fails call number K (0-based): once or
-// from then on; with Partial it accepts half of the bytes of the failing call.
+// from then on; with Partial it accepts half of the bytes of the failing call,
+// with Full all of them (a complete count together with an error: a tee whose
+// mirror failed, a device that reports the failure of an earlier flush).
 type FailWriter struct {
 	Buf     []byte
 	K       int
 	Forever bool
 	Partial bool
+	Full    bool
 	Calls   int
 	Fired   bool
 	Lens    []int // length of every Write call seen
@@ -130,8 +133,11 @@ func (w *FailWriter) Write(p []byte) (int, error) {
 		n := 0
 		if w.Partial {
 			n = len(p) / 2
-			w.Buf = append(w.Buf, p[:n]...)
 		}
+		if w.Full {
+			n = len(p)
+		}
+		w.Buf = append(w.Buf, p[:n]...)
 		return n, ErrInjected
 	}
 	w.Buf = append(w.Buf, p...)
